@@ -110,6 +110,11 @@ def eval_pred(e, env):
         return any(eval_pred(v, env) for v in e.values)
     if isinstance(e, (ast.Tuple, ast.List, ast.Set)):
         return type({ast.Tuple: (), ast.List: [], ast.Set: set()}[type(e)])(eval_pred(x, env) for x in e.elts)
+    if isinstance(e, ast.Subscript):
+        return eval_pred(e.value, env)[eval_pred(e.slice, env)]
+    if isinstance(e, ast.BinOp) and isinstance(e.op, (ast.Add, ast.Sub)):
+        a, b = eval_pred(e.left, env), eval_pred(e.right, env)
+        return a + b if isinstance(e.op, ast.Add) else a - b
     if isinstance(e, ast.Compare):
         left = eval_pred(e.left, env)
         for op, c in zip(e.ops, e.comparators):
